@@ -18,6 +18,18 @@ CHECKS = {
             "symbol / missing transition rejects, only Reject is ever raised. Model tied to the code by exact comparison of yields, "
             "outcome kind, accepts_input, `in`, read_input on generated machines x words.",
             "Open known finding: a state named None (sentinel collision).", "7/C01"),
+    "C03": ("Coq theorems about executable models of TMTape and the DTM/NTM/MNTM simulators against textbook step relations on a "
+            "bi-infinite tape + differential correspondence against /repo via the extracted model",
+            "Proved for all tables, inputs and fuels (unbounded): tape write/move commute with the bi-infinite tape incl. L from cell 0 "
+            "and R past the end; k-th DTM configuration = k-fold transition function; k-th NTM set = configurations reachable in k moves; "
+            "DTM/NTM verdicts characterised exactly per fuel (accept iff final reached within budget, reject iff all branches stuck); "
+            "MNTM BFS: visited configurations reachable, accept only on a reachable final state, reject only when every reachable "
+            "configuration was visited and none is final; deterministic table as DTM/NTM/1-tape MNTM gives equal verdicts whenever the "
+            "runs return. Partial: the breadth-first ORDER of MNTM visits (non-decreasing depth) is stated "
+            "(C03_mntm_visits_reachable_statement) but only the reachability/completeness part is proved (..._partial). Model tied to the "
+            "code by exact comparison of traces (state, head-relative non-blank cells), NTM levels as sets, generator endings, "
+            "accepts_input/read_input under a step budget.",
+            "Runs are compared up to the step budget only (halting is not assumed).", "7/C03"),
 }
 
 PENDING = {}
